@@ -18,6 +18,7 @@ var table = map[string]func(tier string) int{
 	"C04": checks.C04,
 	"C06": checks.C06,
 	"C07": checks.C07,
+	"C08": checks.C08,
 	"C10": checks.C10,
 	"C12": checks.C12,
 	"C16": checks.C16,
